@@ -76,7 +76,7 @@ def _run(ix, R):
         for (ge, rs), w, nm in zip(conds, want, names):
             g = ge.generators[0]
             i = fl.tab.name(g.target.id)
-            c = Conv(fl.tab, dict(fl.env), fl.canon)
+            c = Conv(fl.tab, dict(fl.env), fl.canon, on_call=getattr(fl.conv, 'on_call', None))   # (new helpers are followed)
             elt = c.expr(ge.elt)
             ws = spec(fl, w, dict(pe, i=i))
             if not fl.tab.equal(elt, ws):
